@@ -24,6 +24,8 @@ def _init(path):
 def _work(chunk):
     t0 = time.time()
     bv.reset()
+    from interp import Interp
+    Interp.VISITED = set()
     I = isamod.Isa(_F)
 
     def cons(w0):
@@ -55,6 +57,7 @@ def _work(chunk):
         "nodes": len(bv.M.var),
         "wall": time.time() - t0,
         "samples": ck.samples[:3],
+        "visited": sorted(Interp.VISITED),
     }
 
 
@@ -89,6 +92,7 @@ def run(facts_path, workers=None):
             for kk in d:
                 d[kk] += v[kk]
         agg["complete"] = agg["complete"] and r["complete"]
+        agg.setdefault("visited", set()).update(r["visited"])
         for k, v in r["unknown_callees"].items():
             agg["unknown_callees"][k] = agg["unknown_callees"].get(k, 0) + v
     agg["wall"] = time.time() - t0
